@@ -309,12 +309,15 @@ pub fn small_width(max: usize) -> BoxedStrategy<usize> {
 }
 
 pub fn penalties_moderate() -> BoxedStrategy<PenSpec> {
+    // zeros are over-represented: with a zero per-line penalty exact-fit
+    // lines cost nothing, which is where ties and degenerate minima live
+    let z = |r: std::ops::Range<usize>| prop_oneof![1 => Just(0usize), 7 => r];
     (
-        0usize..3000,
-        0usize..6000,
+        z(0usize..3000),
+        z(0usize..6000),
         1usize..=8,
-        0usize..100,
-        0usize..100,
+        z(0usize..100),
+        z(0usize..100),
     )
         .prop_map(|(nline, overflow, fraction, short_last, hyphen)| PenSpec {
             nline,
